@@ -84,4 +84,44 @@ PROPS["C18"] = {
     "assumptions": ["libp2p derives the host identity from the key passed to libp2p.Identity"],
 }
 
+
+def _c13_agree(model, impl):
+    """reads compared element-wise; `outside` model answers and inner-unmarshal failures of
+    hand-made raw payloads only need 'no panic'"""
+    if impl.get("panic"):
+        return False
+    if "header_eq" in model:
+        return impl.get("header_eq") is True
+    if model.get("wirelen") != impl.get("wirelen"):
+        return False
+    if "wire" in model and model["wire"] != impl.get("wire"):
+        return False
+    mr, ir = model["reads"], impl["reads"]
+    for i, m in enumerate(mr):
+        if m["t"] == "outside":
+            return True
+        if i >= len(ir):
+            return False
+        r = ir[i]
+        if r["t"] == "inner-err" and m["t"] == "data":
+            continue
+        if m["t"] != r["t"]:
+            return False
+        if m["t"] == "data" and (m["plen"] != r["plen"] or (m["p"] and m["p"] != r.get("p", ""))):
+            return False
+        if m["t"] == "status" and (m["code"] != r.get("code", 0) or m["msg"] != r.get("msg", "")):
+            return False
+    return len(ir) == len(mr)
+
+
+PROPS["C13"] = {
+    "harness": {"kind": "overlay", "pkg": "pkg/p2p/libp2p", "pkgname": "libp2p",
+                "files": ["libp2p/c13_test.go"], "test": "TestVerifC13"},
+    "agree": _c13_agree,
+    "level_text": "Theorems (byte level, for every payload up to the frame limit, every status code < 2^31 and message, every sequence of writes, any chunking since the reader consumes the concatenation): varint, length-delimited-field and google.rpc.Status round trips; a data envelope decodes as data with the same bytes and never as an error, an error envelope decodes as an error with the same code and message and never as data; readAll(concat(frames of writes)) = the written items in order; the empty envelope is rejected; an oversize length prefix is rejected. Tied to the real stream/metadataStream over an in-memory byte stream with adversarial chunkings: all message types of the protocols, all 17 status codes, sizes around varint boundaries and exactly at/below/above the 8 MiB limit, malformed envelopes, header maps (through the real metadataStream; protobuf library trusted for their content). Wire bytes produced by the Go code are compared with the model's encoder byte for byte.",
+    "level_note": "Trusted: Lean kernel; harness; protobuf marshal/unmarshal of the inner messages and of structpb header maps; msgio. An error frame with code OK reads as success-without-data (outside the claim, modelled); envelopes with several occurrences of the oneof members follow protobuf merge rules (outside the model, only no-panic compared).",
+    "nontrivial_rule": "distinct (tag, chunking, model read list) triples",
+    "assumptions": ["the byte stream below the framing layer is reliable and ordered (libp2p stream contract)"],
+}
+
 NOT_CLAIMED = {}
